@@ -175,6 +175,26 @@ def Cursor.run (c : Cursor) (m : OrdMap) : List IterOp → List Out × Cursor ×
     let rs := Cursor.run r.2.1 r.2.2 rest
     (r.1 :: rs.1, rs.2)
 
+/-- a session mixes histories of table calls with iterator sessions (each on a fresh iterator; while
+an iterator is in use the table is modified only through it) -/
+inductive Segment where
+  | calls (ops : List (Op × List Bool))
+  | iterate (prog : List IterOp)
+  deriving Repr, DecidableEq
+
+/-- the ideal map through a session; `refused` translates the allocator schedule of a call into
+"the request of this call is refused" -/
+def runSession (refused : List Bool → Bool) (m : OrdMap) : List Segment → List (List Out) × OrdMap
+  | [] => ([], m)
+  | .calls ops :: rest =>
+    let r := run cmp m (ops.map fun p => (p.1, refused p.2))
+    let rs := runSession refused r.2 rest
+    (r.1 :: rs.1, rs.2)
+  | .iterate prog :: rest =>
+    let r := (Cursor.init m).run m prog
+    let rs := runSession refused r.2.2 rest
+    (r.1 :: rs.1, rs.2)
+
 end OrdMap
 end CC.Spec
 
@@ -214,6 +234,16 @@ def step (cmp : Nat → Nat → Int) (m : OrdMap) (op : Op) (refused : Bool) : O
   let r := OrdMap.step cmp m (toMapOp op) refused
   ({ r.1 with st := r.1.st.map mapStat,
               val := match op with | .remove e => r.1.val.map (fun _ => e) | _ => r.1.val }, r.2)
+
+def isRemove : Op → Bool
+  | .remove _ => true
+  | _ => false
+
+/-- what the C API hands back for a result of the ideal set: `cc_treeset_remove` stores the value the
+wrapped table kept for the element — the dummy — in `*out`, not the element (an observation outside
+the wording of C03, see DESIGN.md); everything else is handed back as it is -/
+def apiOut (op : Op) (o : Out) : Out :=
+  if isRemove op then { o with val := o.val.map (fun _ => dummy) } else o
 
 def run (cmp : Nat → Nat → Int) (m : OrdMap) : List (Op × Bool) → List Out × OrdMap
   | [] => ([], m)
